@@ -571,6 +571,273 @@ def name_error_info_after_deactivation():
     print("info() after the with-block:", info["annotation"], info["provenance"])
     return info["provenance"] != "body"
 
+# ---- recorded findings reported by independent agents (round 5), not repaired --------------------------------------------
+def generator_running_before_activation():
+    """C02: an activation that started before the probe keeps running the untransformed code object."""
+    def gen(n):
+        for i in range(n):
+            v = i * 10
+            yield v
+
+    g = gen(3)
+    next(g)
+    with probing("gen > v") as prb:
+        ev = prb.accum()
+        rest = list(g)
+    print("rest", rest, "events", ev)
+    return [e["v"] for e in ev] != [10, 20]
+
+
+def with_item_fails_after_target_bound():
+    """C02: `with cm(1) as a, cm(2, fail) as b`: a is bound by the body but no event is delivered (targets reported after all items)."""
+    from contextlib import contextmanager
+
+    @contextmanager
+    def cm(v, fail=False):
+        if fail:
+            raise ValueError
+        yield v
+
+    def f3():
+        try:
+            with cm(1) as a, cm(2, True) as b:  # noqa
+                pass
+        except ValueError:
+            pass
+        return a
+
+    with probing("f3 > a") as prb:
+        ev = prb.accum()
+        r = f3()
+    print("returned", r, "events", ev)
+    return ev != [{"a": 1}]
+
+
+def finally_overrides_return():
+    """C06: #value is emitted at the return statement; a finally clause that returns / raises afterwards is not taken into account."""
+    def fin():
+        try:
+            return 1
+        finally:
+            return 2  # noqa
+
+    def fin2():
+        try:
+            return 1
+        finally:
+            raise KeyError("x")
+
+    bad = False
+    for fn, want in ((fin, [2]), (fin2, [])):
+        got = []
+        with probing("fn > #value", env={"fn": fn}) as prb:
+            prb["#value"].subscribe(got.append)
+            try:
+                fn()
+            except KeyError:
+                pass
+        print(fn.__name__, "#value events", got, "expected", want)
+        bad = bad or got != want
+    return bad
+
+
+def same_name_constrained_in_two_frames():
+    """C12 / C03: captures are keyed by name; the outer frame's x hides the inner one."""
+    from ptera import tooled
+
+    @tooled
+    def g(x):
+        y = x * 10
+        return y
+
+    @tooled
+    def f(x):
+        return g(x + 1)
+
+    with probing("f(x=1) > g(x=2) > y", env={"f": f, "g": g}) as prb:
+        out = prb.accum()
+        f(1)
+    print("events", out)
+    return [e.get("y") for e in out] != [20]
+
+
+def two_bound_methods_on_one_path():
+    """C13 / C03: both receiver constraints are captured under the name `self`; the outer one wins."""
+    class Box:
+        def __init__(self, n):
+            self.n = n
+
+        def meth(self, x):
+            v = x + self.n
+            return v
+
+        def outer(self, other):
+            return other.meth(1)
+
+    a, b = Box(1), Box(2)
+    with probing("a.outer > b.meth > v", env={"a": a, "b": b}) as prb:
+        ev = prb.accum()
+        a.outer(b)
+        b.outer(a)
+    print("events", [(e.get("v")) for e in ev])
+    return [e.get("v") for e in ev] != [3]
+
+
+def bound_method_subselector_drops_record():
+    """C07: the receiver filter of a nested bound-method sub-selector is applied to the whole record."""
+    class Animal:
+        def __init__(self, name):
+            self.name = name
+
+        def cry(self):
+            intensity = 1
+            return intensity
+
+    cow, crow = Animal("cow"), Animal("crow")
+
+    def farm(x):
+        cow.cry()
+        crow.cry()
+        cow.cry()
+
+    with probing("farm(x) > cow.cry(intensity)", env={"farm": farm, "cow": cow}, raw=True) as prb:
+        rec = prb.accum()
+        farm(1)
+    got = [{k: c.values for k, c in r.items() if k in ("x", "intensity")} for r in rec]
+    print("records", got)
+    return got != [{"x": [1], "intensity": [1, 1]}]
+
+
+def hidden_temporaries_keep_generator_alive():
+    """C09: the temporaries of an unpacking / chained assignment are never cleared, so `del it` does not finalise the generator
+    and its context stays installed in the driver until the driver returns."""
+    from ptera import tooled
+    from ptera.overlay import Overlay
+
+    @tooled
+    def leaf(v):
+        x = v
+        return x
+
+    @tooled
+    def gen():
+        a = 1
+        yield a
+        leaf(100)
+        yield a
+
+    @tooled
+    def driver_simple():
+        it = gen()
+        next(it)
+        del it
+        leaf(1)
+
+    @tooled
+    def driver_unpack():
+        q, it = 0, gen()
+        next(it)
+        del it
+        leaf(2)
+
+    out = {}
+    for d in (driver_simple, driver_unpack):
+        with Overlay.tapping("gen > leaf > x") as res:
+            d()
+        out[d.__name__] = res
+    print(out)
+    return out["driver_unpack"] != out["driver_simple"]
+
+
+def same_name_at_two_placements():
+    """C14: probing /mod/K/work makes /mod/work resolve to K.work (transform() registers the code under (filename,) only)."""
+    import importlib.util
+    import os
+    import tempfile
+    from ptera.selector import select
+
+    d = tempfile.mkdtemp()
+    try:
+        p = os.path.join(d, "modz_known.py")
+        open(p, "w").write("def work(x):\n    a = x + 1\n    return a\n\nclass K:\n    def work(self, x):\n        a = x + 100\n        return a\n")
+        spec = importlib.util.spec_from_file_location("modz_known", p)
+        mod = importlib.util.module_from_spec(spec)
+        sys.modules["modz_known"] = mod
+        spec.loader.exec_module(mod)
+        before = select("/modz_known/work > a").element.name is mod.work
+        with probing("/modz_known/K/work > a"):
+            mod.K().work(1)
+        after = select("/modz_known/work > a").element.name
+        print("before:", before, "after probing K.work, /modz_known/work resolves to", after)
+        return not before or after is not mod.work
+    finally:
+        import shutil
+        shutil.rmtree(d)
+        sys.modules.pop("modz_known", None)
+
+
+def absent_marker_in_override_event():
+    """C16: the tentative value of a declared-only variable handed to an overridable probe / rewrite callback is the ABSENT marker."""
+    from ptera.utils import ABSENT
+
+    def f(a):
+        y: int
+        return a + y
+
+    seen = []
+    with probing("f > y", overridable=True) as prb:
+        prb.subscribe(seen.append)
+        prb.override(lambda d: 10)
+        r = f(1)
+    print("returned", r, "event", seen)
+    return any(v is ABSENT for e in seen for v in e.values())
+
+
+def probe_activated_inside_a_call_is_dropped():
+    """C05: dual of deactivation_inside_a_call: a global probe activated while a probed call runs loses its handlers when that call returns."""
+    from ptera import global_probe
+
+    def g2():
+        z = 1
+        return z
+
+    res = []
+    holder = {}
+
+    def f2(x):
+        a = x
+        holder["p"] = global_probe("g2 > z", env={"g2": g2})
+        holder["p"]["z"].subscribe(res.append)
+        g2()
+        return a
+
+    with probing("f2 > a"):
+        f2(1)
+    g2()
+    holder["p"].deactivate()
+    print("events of the probe activated inside the call:", res)
+    return res != [1, 1]
+
+# case -> properties (the scenario corpus of DESIGN 2.6: every case is replayed natively by the quick check of its properties)
+CASES = {
+    "tuple_unpack_generator": ["C01"], "tuple_unpack_dict": ["C01"], "starred_target": ["C01"], "subscript_index_twice": ["C01"],
+    "annotation_reevaluated": ["C01"], "for_target_starred": ["C01"], "for_target_attribute": ["C01"], "nonlocal_closure": ["C01"],
+    "nested_class_in_function": ["C01"], "nested_def_in_function": ["C01", "C10"], "name_bound_in_except_body": ["C01", "C10"],
+    "method_name_bound_to_none_in_module": ["C01"], "defaults_evaluated_again": ["C01"], "tooled_closure_snapshots_cells": ["C01"],
+    "rhs_walrus_no_event": ["C02"], "import_dotted_no_event": ["C02"], "with_target_no_event": ["C02"], "list_target_no_event": ["C02"],
+    "walrus_in_lambda_spurious_event": ["C02"], "generator_running_before_activation": ["C02"], "with_item_fails_after_target_bound": ["C02"],
+    "value_on_fallthrough": ["C06"], "rhs_yield_no_events": ["C06", "C02"], "nested_coroutine_value_after_exit": ["C06"], "finally_overrides_return": ["C06"],
+    "except_type_name_refused": ["C10"], "except_body_name_refused": ["C10"], "nested_def_name_refused": ["C10"],
+    "declared_only_uninstrumented_returns_marker": ["C16"], "undefined_global_partial_instrumentation_yields_marker": ["C16"],
+    "unused_undefined_global_raises": ["C16"], "name_error_info_after_deactivation": ["C16"], "absent_marker_in_override_event": ["C16"],
+    "equal_but_distinct_receivers": ["C13"], "unhashable_receiver": ["C13"], "two_bound_methods_on_one_path": ["C13", "C03"],
+    "tag_hidden_by_later_annotation": ["C11"],
+    "completion_error_leaves_probe_active": ["C17", "C05"], "deactivation_inside_a_call_is_undone_at_its_exit": ["C05"],
+    "probe_activated_inside_a_call_is_dropped": ["C05"],
+    "same_name_constrained_in_two_frames": ["C12"], "bound_method_subselector_drops_record": ["C07"],
+    "hidden_temporaries_keep_generator_alive": ["C09"], "same_name_at_two_placements": ["C14"],
+}
+
 
 if __name__ == "__main__":
     case = sys.argv[1]
